@@ -3060,6 +3060,8 @@ class Parser:
         self._match(TokenType.ON)
         if self._match(TokenType.L_PAREN):
             while self._curr and not self._match(TokenType.R_PAREN):
+                index = self._index
+
                 if self._match_text_seq("HISTORY_TABLE", "="):
                     prop.set("this", self._parse_table_parts())
                 elif self._match_text_seq("DATA_CONSISTENCY_CHECK", "="):
@@ -3068,6 +3070,11 @@ class Parser:
                     prop.set("retention_period", self._parse_retention_period())
 
                 self._match(TokenType.COMMA)
+
+                if self._index == index:
+                    # unknown option: nothing was consumed, so the loop would never end
+                    self.raise_error("Unexpected SYSTEM_VERSIONING option")
+                    break
 
         return prop
 
@@ -3078,12 +3085,19 @@ class Parser:
 
         if self._match(TokenType.L_PAREN):
             while self._curr and not self._match(TokenType.R_PAREN):
+                index = self._index
+
                 if self._match_text_seq("FILTER_COLUMN", "="):
                     prop.set("filter_column", self._parse_column())
                 elif self._match_text_seq("RETENTION_PERIOD", "="):
                     prop.set("retention_period", self._parse_retention_period())
 
                 self._match(TokenType.COMMA)
+
+                if self._index == index:
+                    # unknown option: nothing was consumed, so the loop would never end
+                    self.raise_error("Unexpected DATA_DELETION option")
+                    break
 
         return prop
 
